@@ -657,6 +657,12 @@ fn model_sweep() {
     for round in 0..2 { if bad.eval().is_ok() { f.report("C17", "eval() accepts a basis function whose output has the wrong length", format!("(call #{})", round + 1)); } }
     let badd = SeparableModelBuilder::<f64>::new(["a"]).function(["a"], f1).partial_deriv("a", |_x: &DVector<f64>, _a: f64| DVector::from_vec(vec![1.])).independent_variable(xs(3)).initial_parameters(vec![1.]).build().unwrap();
     for round in 0..2 { if badd.eval_partial_deriv(0).is_ok() { f.report("C17", "eval_partial_deriv() accepts a derivative whose output has the wrong length", format!("(call #{})", round + 1)); } }
+    // outputs that are LONGER than the independent variable (a zip-style copy would silently truncate them)
+    let long = SeparableModelBuilder::<f64>::new(["a"]).invariant_function(|_x: &DVector<f64>| DVector::from_vec(vec![1., 2., 3., 4., 5.])).function(["a"], f1).partial_deriv("a", f1).independent_variable(xs(3)).initial_parameters(vec![1.]).build().unwrap();
+    for round in 0..2 { if long.eval().is_ok() { f.report("C17", "eval() accepts a basis function whose output is longer than the independent variable", format!("(5 values for 3 samples, call #{})", round + 1)); } }
+    let longd = SeparableModelBuilder::<f64>::new(["a"]).function(["a"], f1).partial_deriv("a", |_x: &DVector<f64>, _a: f64| DVector::from_vec(vec![1., 2., 3., 4.])).independent_variable(xs(3)).initial_parameters(vec![1.]).build().unwrap();
+    for round in 0..2 { if longd.eval_partial_deriv(0).is_ok() { f.report("C17", "eval_partial_deriv() accepts a derivative whose output is longer than the independent variable", format!("(4 values for 3 samples, call #{})", round + 1)); } }
+    match longd.eval() { Ok(m) => if m.nrows() != 3 || m.ncols() != 1 { f.report("C17", "eval() of a valid function returns a matrix that is not samples x basis functions", format!("{:?}", m.shape())); }, Err(e) => f.report("C17", "eval() fails although only the derivative is defective", format!("{:?}", e)) }
     f.finish("routing (4 parameter orders, a 130-parameter model), the builder acceptance matrix (29 sequences) and the misuse cases behave as specified");
 }
 
